@@ -3,6 +3,7 @@ import Ptn.C04.Value
 import Ptn.C04.ValueOp
 import Ptn.C04.ValueCentre
 import Ptn.C04.CentreModel
+import Ptn.C04.ValueShortcut
 import Ptn.C06.Demo
 /-! Property theorems for C04: the leg-graph theorems are in `Core.lean` (core Lean only), the value-level
 theorem in `Value.lean` (over `Ptn/Common/Einsum*.lean`, single Mathlib modules).  This file only adds the
@@ -356,5 +357,88 @@ example : DependsOn (· ∈ [(10 : Nat), 11]) (fun σ : Asg Nat => ((σ 10 : Int
   intro σ τ h
   show ((σ 10 : Int) + 2 * σ 11 + 1) = ((τ 10 : Int) + 2 * τ 11 + 1)
   rw [h 10 (by simp), h 11 (by simp)]
+
+/-! ### the centre shortcut for the output of the loop (centre = root of the tree) -/
+
+/-- **The loop of `contract_two_ttns` returns the centre-only contraction when the state is canonical toward the
+root.**  For every tree `node c ks` with distinct identifiers, every child order of the bra network, every
+commutative semiring, all dimensions, all node tensors `kv i` / `bv i` (each reading only its own legs; `bv` the
+conjugated copies), GIVEN the index-form isometry of every non-root node toward the root in C04's own labels
+(`IsoKids`: per edge `p — i`, `Σ_{phys, legs to children} kv i · bv i = δ(gKet i p, gBra i p)`, both ends of every
+bond of equal dimension — what C03 `canonical_form` establishes): the loop returns a closed tensor, it is built
+by its own `tensordot` calls from the tensors of all nodes, and EVERY expression from which it is built evaluates
+to `Σ C · Cc` over one common index per leg of the root tensor (`np.tensordot(tensor, tensor.conj(), axes=(legs,
+legs))`, the shortcut of `scalar_product`) — which therefore equals the dense inner product `Σ_phys ketExpr·braExpr`.
+
+`_root_partial`: the centre is the ROOT of the tree handed to the loop; for a centre elsewhere the tree has to be
+re-rooted first (the labels `gKet i n` do not depend on the rooting, the `Tree` does), which is not done here. -/
+theorem scalar_product_centre_shortcut_root_partial {R : Type} [CommSemiring R] (c : Nat) (ks : List Tree)
+    (hnd : (Tree.node c ks).ids.Nodup)
+    (braKids : Nat → List Nat) (hperm : ∀ e ∈ Tree.info none (.node c ks), (braKids e.1).Perm e.2.2)
+    (kv bv : Nat → Asg Leg → R) (hkv : KetLocal kv (.node c ks)) (hbv : BraLocal bv braKids (.node c ks))
+    (dim : Leg → Nat) (hiso : IsoKids kv bv dim c ks) :
+    ∃ binds, contractTwoTtns (netOf (.node c ks) (fun _ ks => ks) gKetT) (netOf (.node c ks) (fun i _ => braKids i) gBraT)
+        = some ⟨[], binds⟩ ∧
+      (∃ e : Expr Leg R, Built ⟨[], binds⟩ e ∧ e.leaves.Perm (ssLeaves braKids kv bv none (.node c ks))) ∧
+      ∀ e : Expr Leg R, Built ⟨[], binds⟩ e → e.leaves.Perm (ssLeaves braKids kv bv none (.node c ks)) →
+        ∀ σ : Asg Leg,
+          e.eval dim σ = netValue dim (physPair c :: downPairs c ks) [kv c, bv c] σ ∧
+          sumPairs dim (physPairs (.node c ks))
+            (fun τ => (ketExpr kv (.node c ks)).eval dim τ * (braExpr bv braKids (.node c ks)).eval dim τ) σ =
+            netValue dim (physPair c :: downPairs c ks) [kv c, bv c] σ := by
+  obtain ⟨binds, hrun, hex, hall⟩ := contract_two_ttns_value (.node c ks) hnd braKids hperm kv bv hkv hbv
+  refine ⟨binds, hrun, hex, ?_⟩
+  intro e hb hl σ
+  obtain ⟨hswf, hbinds, _, hval⟩ := hall e hb hl
+  have hspec : binds.Perm (ssSpec (.node c ks)) := by
+    obtain ⟨b', hrun', hb'⟩ := contract_two_ttns_graph (.node c ks) hnd braKids hperm
+    rw [hrun] at hrun'
+    injection hrun' with h
+    injection h with _ h2
+    rw [h2]; exact hb'
+  have hrec := hbinds.trans hspec
+  have hnd2 : (Expr.pairLegs (ssSpec (.node c ks))).Nodup := by
+    have hp : (Expr.pairLegs e.binds).Perm (Expr.pairLegs (ssSpec (.node c ks))) :=
+      List.Perm.append (hrec.map _) (hrec.map _)
+    exact hp.nodup_iff.1 (Expr.binds_nodup e hswf)
+  have key : e.eval dim σ = netValue dim (physPair c :: downPairs c ks) [kv c, bv c] σ := by
+    rw [c04_eval_eq_netValue dim e hswf _ _ hrec (hl.map _) σ]
+    exact c04_root_shortcut_netValue kv bv braKids dim c ks
+      (fun x hx => ⟨hkv x hx, hbv x hx, hperm x hx⟩) hiso hnd2 σ
+  exact ⟨key, by rw [← hval dim σ]; exact key⟩
+
+/-- the hypotheses of `scalar_product_centre_shortcut_root_partial` hold for a concrete canonical state: the tree
+`0 — 1`, all dimensions 2, node 1 the isometry `δ(bond, phys)` (and its copy), node 0 an arbitrary tensor -/
+def demoIsoKv : Nat → Asg Leg → Int := fun i σ =>
+  if i = 1 then (if σ (Leg.gKet 1 0) = σ (Leg.gKetPhys 1) then 1 else 0)
+  else (σ (Leg.gKet 0 1) : Int) + 2 * σ (Leg.gKetPhys 0) + 1
+def demoIsoBv : Nat → Asg Leg → Int := fun i σ =>
+  if i = 1 then (if σ (Leg.gBra 1 0) = σ (Leg.gBraPhys 1) then 1 else 0)
+  else (σ (Leg.gBra 0 1) : Int) + 2 * σ (Leg.gBraPhys 0) + 1
+
+example : IsoKids demoIsoKv demoIsoBv (fun _ => 2) 0 [.node 1 []] := by
+  refine ⟨rfl, rfl, ⟨rfl, ?_, trivial⟩, trivial⟩
+  intro τ h1 h2
+  simp only at h1 h2
+  have h1' : τ (Leg.gKet 1 0) = 0 ∨ τ (Leg.gKet 1 0) = 1 := by omega
+  have h2' : τ (Leg.gBra 1 0) = 0 ∨ τ (Leg.gBra 1 0) = 1 := by omega
+  rcases h1' with h1' | h1' <;> rcases h2' with h2' | h2' <;>
+    simp [downPairs, physPair, sumPairs, sumR, upd, demoIsoKv, demoIsoBv, List.range_succ, h1', h2']
+
+example : KetLocal demoIsoKv (.node 0 [.node 1 []]) ∧ BraLocal demoIsoBv (fun i => if i = 0 then [1] else [])
+    (.node 0 [.node 1 []]) := by
+  constructor
+  · intro e he
+    simp only [Tree.info, Tree.infoL, List.map_cons, List.map_nil, Tree.id, List.append_nil, List.mem_cons,
+      List.not_mem_nil, or_false] at he
+    rcases he with rfl | rfl <;> intro σ τ h <;> simp only [demoIsoKv]
+    · rw [h (Leg.gKet 0 1) (by simp [gKetT, T.fresh, Node.nbrs]), h (Leg.gKetPhys 0) (by simp [gKetT, T.fresh, Node.nbrs])]; simp
+    · rw [h (Leg.gKet 1 0) (by simp [gKetT, T.fresh, Node.nbrs]), h (Leg.gKetPhys 1) (by simp [gKetT, T.fresh, Node.nbrs])]; simp
+  · intro e he
+    simp only [Tree.info, Tree.infoL, List.map_cons, List.map_nil, Tree.id, List.append_nil, List.mem_cons,
+      List.not_mem_nil, or_false] at he
+    rcases he with rfl | rfl <;> intro σ τ h <;> simp only [demoIsoBv]
+    · rw [h (Leg.gBra 0 1) (by simp [gBraT, T.fresh, Node.nbrs]), h (Leg.gBraPhys 0) (by simp [gBraT, T.fresh, Node.nbrs])]; simp
+    · rw [h (Leg.gBra 1 0) (by simp [gBraT, T.fresh, Node.nbrs]), h (Leg.gBraPhys 1) (by simp [gBraT, T.fresh, Node.nbrs])]; simp
 
 end Ptn.C04
